@@ -28,6 +28,9 @@ pub struct Plan {
     pub bernoulli: Option<(u64, u64)>,
     /// restrict random / indexed faults to these verbs (empty = all)
     pub only_verbs: Vec<String>,
+    /// (verb, exact path, n, fault): the n-th (from 0) occurrence of this operation suffers
+    /// "crash" (halt before it), "crash_empty" (create the file empty, then halt) or an error kind
+    pub rules: Vec<(String, String, usize, String)>,
 }
 
 pub fn kind_from_str(s: &str) -> ErrorKind {
@@ -89,6 +92,7 @@ pub struct Shared {
     pub sched_wake: Notify,
     ids: Mutex<HashMap<usize, usize>>,
     rng: Mutex<u64>,
+    occurrences: Mutex<HashMap<(String, String), usize>>,
 }
 
 impl Shared {
@@ -105,6 +109,7 @@ impl Shared {
             sched: if race { Some(Mutex::new(SchedState::default())) } else { None },
             sched_wake: Notify::new(),
             ids: Mutex::new(HashMap::new()),
+            occurrences: Mutex::new(HashMap::new()),
             rng: Mutex::new(seed.wrapping_mul(6364136223846793005).wrapping_add(1442695040888963407)),
         })
     }
@@ -286,13 +291,26 @@ impl Interceptor for Icept {
         }
         let idx = sh.op_counter.fetch_add(1, SeqCst);
         let verb = verb_str(call.verb);
-        if sh.plan.crash_at == Some(idx) {
+        let nth = {
+            let mut occ = sh.occurrences.lock().unwrap();
+            let e = occ.entry((verb.to_string(), call.path.clone())).or_insert(0);
+            let n = *e;
+            *e += 1;
+            n
+        };
+        let rule: Option<String> = sh
+            .plan
+            .rules
+            .iter()
+            .find(|(v, p, n, _)| v == verb && *p == call.path && *n == nth)
+            .map(|r| r.3.clone());
+        if sh.plan.crash_at == Some(idx) || rule.as_deref() == Some("crash") {
             sh.halted.store(true, SeqCst);
             sh.trace.lock().unwrap().push(json!({"i": idx, "actor": self.actor, "verb": verb, "path": call.path, "halt": "before"}));
             sh.halt_notify.notify_one();
             std::future::pending::<()>().await;
         }
-        if sh.plan.crash_empty_at == Some(idx) {
+        if sh.plan.crash_empty_at == Some(idx) || rule.as_deref() == Some("crash_empty") {
             sh.halted.store(true, SeqCst);
             let mut made = false;
             if call.verb == HookVerb::Write {
@@ -320,6 +338,9 @@ impl Interceptor for Icept {
                     inject = Some(kinds[(sh.next_rand() % 4) as usize]);
                 }
             }
+        }
+        if let Some(r) = &rule {
+            inject = Some(kind_from_str(r));
         }
         for (v, sub, k) in &sh.plan.fault_match {
             if v == verb && call.path.contains(sub.as_str()) {
